@@ -556,3 +556,111 @@ def bool_payload_edges(body, call):
             te, fe = fe, te
         return te, fe
     return None
+
+
+def bool_fn_table(body, atom_of_call, max_paths=256):
+    """Symbolically evaluate a small pure boolean function by enumerating its CFG paths.
+
+    `atom_of_call(call)` names the boolean atoms (calls returning bool); enum discriminant
+    switches become atoms `disc:<local root>==<v>`.  Returns a list of (assignment dict, value)
+    -- one entry per path -- or None if something is not understood (fail closed)."""
+    results = []
+    stack = [(0, {}, {}, 0)]
+    while stack:
+        bb, env, asg, steps = stack.pop()
+        if steps > 400 or len(results) > max_paths:
+            return None
+        env = dict(env)
+        for s in body.stmts(bb):
+            if s[0] != "a" or place_proj(s[1]):
+                continue
+            l = place_local(s[1])
+            rv = s[2]
+            val = None
+            if rv[0] == "use":
+                o = rv[1]
+                if o[0] == "k" and o[2] == "bool":
+                    val = o[1] in ("1", "true")
+                elif o[0] in "cm" and not place_proj(o[1]):
+                    val = env.get(place_local(o[1]))
+            elif rv[0] == "un" and rv[1] == "Not":
+                v = env.get(op_local(rv[2])) if op_local(rv[2]) is not None else None
+                if isinstance(v, bool):
+                    val = not v
+                elif isinstance(v, tuple):
+                    val = (v[0], v[1], not v[2])
+            elif rv[0] == "disc":
+                val = ("disc", body.place_root(rv[1]), False)
+            env[l] = val
+        t = body.term(bb)
+        k = t[0]
+        if k == "ret":
+            v = env.get(0)
+            if isinstance(v, bool):
+                results.append((dict(asg), v))
+            elif isinstance(v, tuple) and v[0] == "atom":
+                if v[1] in asg:
+                    results.append((dict(asg), asg[v[1]] != v[2]))
+                else:
+                    for choice in (True, False):
+                        a2 = dict(asg)
+                        a2[v[1]] = choice
+                        results.append((a2, choice != v[2]))
+            else:
+                return None
+        elif k in ("goto", "fe", "fu", "drop"):
+            stack.append((t[1] if k != "drop" else t[2], env, asg, steps + 1))
+        elif k == "call":
+            c = Call(body, bb, t)
+            name = atom_of_call(c)
+            if t[4] is None:
+                return None
+            env[place_local(c.dest)] = ("atom", name, False) if name else None
+            stack.append((t[4], env, asg, steps + 1))
+        elif k == "switch":
+            l = op_local(t[1])
+            v = env.get(l) if l is not None else None
+            if isinstance(v, bool):
+                tgt = t[3] if v else next((x[1] for x in t[2] if x[0] == 0), t[3])
+                stack.append((tgt, env, asg, steps + 1))
+            elif isinstance(v, tuple) and v[0] == "atom":
+                for choice in ((asg[v[1]],) if v[1] in asg else (True, False)):
+                    a2 = dict(asg)
+                    a2[v[1]] = choice
+                    truth = choice != v[2]
+                    tgt = t[3] if truth else next((x[1] for x in t[2] if x[0] == 0), t[3])
+                    stack.append((tgt, env, a2, steps + 1))
+            elif isinstance(v, tuple) and v[0] == "disc":
+                for val, tgt in t[2]:
+                    a2 = dict(asg)
+                    a2[f"disc:{v[1]}"] = val
+                    stack.append((tgt, env, a2, steps + 1))
+                a2 = dict(asg)
+                a2[f"disc:{v[1]}"] = "other"
+                if body.term(t[3])[0] != "unreachable":
+                    stack.append((t[3], env, a2, steps + 1))
+            else:
+                return None
+        elif k == "unreachable":
+            continue
+        else:
+            return None
+    return results
+
+
+def table_matches(table, expected, atoms):
+    """Every enumerated path agrees with `expected(full assignment)` for all completions."""
+    import itertools
+    if table is None:
+        return False, "function shape not understood"
+    for asg, val in table:
+        free = [a for a in atoms if a not in asg]
+        for combo in itertools.product((True, False), repeat=len(free)):
+            full = dict(asg)
+            full.update(dict(zip(free, combo)))
+            exp = expected(full)
+            if exp is None:
+                continue
+            if exp != val:
+                return False, f"under {full} the function returns {val}, expected {exp}"
+    return True, f"{len(table)} paths agree"
